@@ -26,7 +26,7 @@ func init() {
 			{Name: "retain", Weight: 4, Bubble: true, Run: c06Retain},
 			{Name: "sm-error-reports", Weight: 1, Bubble: true, Run: func(e *Env) { smaRun(e, "C06") }},
 		},
-		MustProbes: []string{"pooled-then-pooled", "retained-across-connection", "retained-across-goroutine", "boundary-1025-1044", "retained-forwarded", "unpadded-tail", "error-report-message-retained", "deep-nesting", "wrong-size-fixed-width", "unmarshal-into-reused-struct"},
+		MustProbes: []string{"pooled-then-pooled", "retained-across-connection", "retained-across-goroutine", "boundary-1025-1044", "retained-forwarded", "unpadded-tail", "error-report-message-retained", "deep-nesting", "wrong-size-fixed-width", "unmarshal-into-reused-struct", "lookup-with-several-matches"},
 	})
 }
 
@@ -198,6 +198,7 @@ func c06Retain(e *Env) {
 		// the handler may parse every message into one scratch struct it reuses (the library
 		// fills the struct; it must not write through it into an earlier message)
 		useScratch := t.Chance(1, 2)
+		lookups := t.Chance(1, 2)
 		scratch := new(c06Scratch)
 		mux.HandleFunc("ALL", func(c diam.Conn, m *diam.Message) {
 			keep(name, m)
@@ -205,6 +206,18 @@ func c06Retain(e *Env) {
 				if err := m.Unmarshal(scratch); err == nil {
 					e.Probe("unmarshal-into-reused-struct")
 				}
+			}
+			if lookups {
+				// read-only use of the kept message: lookups must leave it as it is
+				for _, code := range []uint32{avpSimAddress, avpSimOctets, avpSimGroup, 80000, avpSimIPv4} {
+					if as, err := m.FindAVPs(code, 0); err == nil && len(as) >= 2 {
+						e.Probe("lookup-with-several-matches")
+					}
+					m.FindAVP(code, 0)
+				}
+				m.FindAVPsWithPath([]interface{}{uint32(avpSimGroup), uint32(avpSimAddress)}, 0)
+				_ = m.String()
+				_ = m.Len()
 			}
 			if answer {
 				a := m.Answer(2001)
